@@ -62,16 +62,19 @@ def sortNat (l : List Nat) : List Nat := l.foldr insertNat []
     fulfils (sorted), claimed; `none` when empty -/
 def showOuts (os : List Out) : String :=
   let inc := if os.contains .inconsistent then ["inconsistent"] else []
-  let cl := os.filterMap fun | .claimable a d => some s!"claimable:{a}:{d}" | _ => none
+  let cl := os.filterMap fun | .claimable a k d => some s!"claimable:{a}:{k}:{d}" | _ => none
   let fails := (sortNat (os.filterMap fun | .failPart i => some i | _ => none)).map (s!"fail:{·}")
   let fuls := (sortNat (os.filterMap fun | .fulfilPart i => some i | _ => none)).map (s!"fulfil:{·}")
-  let cd := os.filterMap fun | .claimed a => some s!"claimed:{a}" | _ => none
+  let cd := os.filterMap fun | .claimed a k t => some s!"claimed:{a}:{k}:{t}" | _ => none
   let all := inc ++ cl ++ fails ++ fuls ++ cd
   if all.isEmpty then "none" else " ".intercalate all
 
 /-- c04mpp: the accumulator of one payment hash.
-    ops: new | part <id> <value> <intended> <total> <cltv> <tag> <evenTlv 0|1> | tick | block <h> |
-         claim <known 0|1> | claimdone | failback -/
+    ops: new | part <id> <value> <intended> <skim|none> <total> <cltv> <tag> <evenTlv 0|1> | tick | block <h> |
+         claim <known 0|1> | claimdone | failback |
+         admit <allow_underpay 0|1> <onion_amt> <amt> <skim|none>   (stateless: the amount test of
+           create_recv_pending_htlc_info, translated; `ok` = the HTLC goes on to the accumulator, `low` = refused)
+    answers: claimable:<amount>:<skimmed>:<deadline>  claimed:<amount>:<skimmed>:<sender_intended_total> -/
 def c04mpp : Drv where
   σ := Mpp
   init := Mpp.init
@@ -79,7 +82,8 @@ def c04mpp : Drv where
     let go (op : Op) : Mpp × String := let r := step s op; (r.1, showOuts r.2)
     match ws with
     | ["new"] => (Mpp.init, "ok")
-    | ["part", i, v, n, t, c, g, e] => go (.part (nat! i) (nat! v) (nat! n) (nat! t) (nat! c) (nat! g) (e == "1"))
+    | ["part", i, v, n, k, t, c, g, e] => go (.part (nat! i) (nat! v) (nat! n) (optNat k) (nat! t) (nat! c) (nat! g) (e == "1"))
+    | ["admit", al, o, a, k] => (s, if MppGen.recvAmountTooLow (al == "1") (nat! o) (nat! a) (optNat k) then "low" else "ok")
     | ["tick"] => go .tick
     | ["block", h] => go (.block (nat! h))
     | ["claim", kn] => go (.claim (kn == "1"))
